@@ -192,7 +192,7 @@ Lemma exec_set : forall k main ip m,
   | name :: v :: s =>
       match name_of o name with
       | Ok n => ex k main (ip + 1)
-                  (mkM s (env_set (menv m) n (match v with VIter x _ => x | _ => v end)) (trace m) (polls m))
+                  (mkM s (env_set (menv m) (trim_dollar n) (match v with VIter x _ => x | _ => v end)) (trace m) (polls m))
       | Err e => (OErr e, m)
       end
   | _ => (OErr EInternal, set_stk m [])
@@ -340,8 +340,8 @@ Lemma exec_incdec : forall (inc : bool) k main ip m arg name,
       | None => (OErr EScript, m)
       | Some v' =>
           match stk m with
-          | _ :: s => ex k main (ip + 3) (mkM s (env_set (menv m) name v') (trace m) (polls m))
-          | [] => (OErr EInternal, set_env m (env_set (menv m) name v'))
+          | _ :: s => ex k main (ip + 3) (mkM s (env_set (menv m) (trim_dollar name) v') (trace m) (polls m))
+          | [] => (OErr EInternal, set_env m (env_set (menv m) (trim_dollar name) v'))
           end
       end
   end.
@@ -419,8 +419,8 @@ Lemma exec_iter_next : forall k main ip m var idx rest it s,
   | VIter v off =>
       match iter_next o v off with
       | Ok (Some (x, kk)) =>
-          let e1 := env_declare (menv m) var x in
-          let e2 := match idx with [] => e1 | _ => env_declare e1 idx kk end in
+          let e1 := env_declare (menv m) (trim_dollar var) x in
+          let e2 := match idx with [] => e1 | _ => env_declare e1 (trim_dollar idx) kk end in
           ex k main (ip + 1) (mkM (VBool true :: VIter v (off + 1) :: s) e2 (trace m) (polls m))
       | Ok None =>
           match env_pop (menv m) with
@@ -826,7 +826,7 @@ Proof.
         match incdec_val v (if inc then 1%Z else (-1)%Z) with
         | None => XErr EScript m
         | Some v' =>
-            let m1 := set_menv m (env_set (menv m) name v') in
+            let m1 := set_menv m (env_set (menv m) (trim_dollar name) v') in
             match stk m1 with
             | _ :: s => XNormal (set_stk m1 s)
             | [] => XErr EInternal m1
@@ -965,7 +965,7 @@ Proof. intros e code H _. exact H. Qed.
 Lemma run_set_name : forall pool funcs obj main ip rest m name,
   code_at main ip (OpSet :: rest) -> polls m = None ->
   ok o pool funcs fns obj main ip (push m (VStr name))
-     (pop1s m (fun x m2 => XNormal (set_menv m2 (env_set (menv m2) name (strip_iter x))))) (ip + 1).
+     (pop1s m (fun x m2 => XNormal (set_menv m2 (env_set (menv m2) (trim_dollar name) (strip_iter x))))) (ip + 1).
 Proof.
   intros pool funcs obj main ip rest m name Hat Hp.
   destruct (code_at_op1 _ _ _ _ Hat) as [Hl Hb].
@@ -991,7 +991,7 @@ Proof.
     destruct fuel as [|f]; [exact I|]. unfold StmtProofs.sp_x.
     change (sx o fns obj (S f) (EAssign name v) m) with
       (then_ (sx o fns obj f v m) (fun m1 => pop1s m1 (fun x m2 =>
-         XNormal (set_menv m2 (env_set (menv m2) name (strip_iter x)))))).
+         XNormal (set_menv m2 (env_set (menv m2) (trim_dollar name) (strip_iter x)))))).
     cbn [emit0 consts] in Hsz, Hpool.
     assert (Hi : i < 65536) by (apply nthN_some_lt in Hn; lia).
     pose proof (code_at_app_l _ _ _ _ Hat) as A1.
@@ -1034,7 +1034,7 @@ Proof.
       then_ (sx o fns obj f (EIdent name) m) (fun m1 => then_ (sx o fns obj f r m1) (fun m2 =>
         pop2s m2 (fun b a m3 =>
           match spec_binop o bop a b with
-          | Ok v => XNormal (set_menv m3 (env_set (menv m3) name v))
+          | Ok v => XNormal (set_menv m3 (env_set (menv m3) (trim_dollar name) v))
           | Err x => XErr x m3
           end)))).
     { cbn [sx]. rewrite Hm. reflexivity. }
@@ -1637,8 +1637,8 @@ Lemma run_foreach_head : forall pool funcs obj main L0 T i1 i2 idx ident rest M,
   | VIter it off :: s =>
       match iter_next o it off with
       | Ok (Some (x, k)) =>
-          let e1 := env_declare (menv M) ident x in
-          let e2 := match idx with [] => e1 | _ => env_declare e1 idx k end in
+          let e1 := env_declare (menv M) (trim_dollar ident) x in
+          let e2 := match idx with [] => e1 | _ => env_declare e1 (trim_dollar idx) k end in
           runs_to o pool funcs fns obj main L0 (L0 + 10) M (mkM (VIter it (off + 1) :: s) e2 (trace M) (polls M))
       | Ok None =>
           match env_pop (menv M) with
@@ -1813,8 +1813,8 @@ Proof.
         (match iter_next o it off with
          | Err x => XErr x m0
          | Ok (Some (x, k)) =>
-             let e1 := env_declare (menv m0) ident x in
-             let e2 := match idx with [] => e1 | _ => env_declare e1 idx k end in
+             let e1 := env_declare (menv m0) (trim_dollar ident) x in
+             let e2 := match idx with [] => e1 | _ => env_declare e1 (trim_dollar idx) k end in
              then_ (sblock o fns obj n body (mkM (VIter it (off + 1) :: stk m0) e2 (trace m0) (polls m0)))
                (fun m1 =>
                   match drop_residue (menv m1) (stk m1) with
